@@ -22,7 +22,6 @@ NOT_BUILT_FNS = {
     "C13": "QuicPacketBuilder and datagrams_to_send",
     "C16": "exception-effect contracts over h3/connection.py and h0/connection.py",
     "C18": "connection-ID handlers of connection.py",
-    "C19": "asyncio adapter classes (callbacks atomic; routing-table invariant)",
     "C20": "logger-guarded blocks as frame conditions",
 }
 ENGINE_TEXT = {
